@@ -47,7 +47,9 @@ func TestMain(m *testing.M) {
 		"(honest / valid share over another hash / hash and share mismatched / replayed shares / garbage or foreign points / wrong beacon share / non-member and malformed ids / exact duplicates; " +
 		"wire-decoded or in-memory; an initial part of the schedule may arrive while the party is still in round0); checked after every delivery; " +
 		"non-trivial = at least one invalid (Byzantine) message is delivered before the k-th distinct valid one; distinct by (n, verifier, number of early messages, sequence of (sender, kind, transport))")
-	stats.Assume("all messages carry BlockHash = bh.Hash: Processor.OnMessageVerify routes by that field, so nothing else reaches this party")
+	stats.Assume("Processor.OnMessageVerify routes by cvm.BlockHash: messages filed under bh.Hash reach this party, and so do messages filed under the party's initial key " +
+		"generatePartyKey(bh) while the party is still registered under it (round0 running / re-registration pending). Messages that are consistently about another hash X " +
+		"(BlockHash = data hash = X, the sender's real share over X) are also handed to the party directly for X = sibling/previous/random block hash: whatever the route, a share over a hash other than bh.Hash must be ignored")
 	stats.Assume("share public keys are registered through JoinedGroupStorage.JoinGroup/AddMemberSignPk; the verifier's own key and/or one other member's key may be missing (lost SignPubKey message). " +
 		"Validity of a share is decided by the harness from the bytes under the sender's REAL share key, independent of what the node has registered. A valid share of a member whose key the verifier " +
 		"does not know need not be counted (the unchanged tree ignores it); it must be counted when the key is registered. So: share set is a subset of the valid senders and holds at least min(k, countable) " +
@@ -174,6 +176,7 @@ type instance struct {
 	expGroupSig         []byte
 	expGroupBeacon      []byte
 
+	partyKey     common.Hash
 	registered   []bool // share public key of member i is in the verifier's joined-group record
 	missingOwn   bool
 	missingOther int // -1 = none
@@ -272,7 +275,11 @@ func buildInstanceKeys(t failer, src source, n int, ownMissing, otherMissing int
 	copy(preHash[:], src.Bytes("prehash", 32))
 	height := uint64(src.Int("height", 1, 1<<30))
 	in.preBH = &types.BlockHeader{Hash: preHash, Height: height - 1, Random: preRandom}
-	in.bh = &types.BlockHeader{Hash: in.hash, PreHash: preHash, Height: height, GroupId: in.gid.Serialize()}
+	in.bh = &types.BlockHeader{Hash: in.hash, PreHash: preHash, Height: height, GroupId: in.gid.Serialize(),
+		Castor: src.Bytes("castor", 32), ProveValue: new(big.Int).SetBytes(src.Bytes("prove", 32))}
+	copy(in.bh.TxTree[:], src.Bytes("txtree", 32))
+	// the key under which the Processor registers this party until round0 has finished (public: cast-message fields)
+	in.partyKey = common.BytesToHash(logical.VerifC15InitialPartyKey(*in.bh))
 	switch src.Int("initialrandom", 0, 2) { // what the proposer left in the fields the round fills in
 	case 1:
 		in.bh.Random = src.Bytes("bhrandom", 64)
@@ -316,7 +323,7 @@ func buildInstanceKeys(t failer, src source, n int, ownMissing, otherMissing int
 		storage.AddMemberSignPk(in.ids[i], in.gid, in.pks[i])
 	}
 	group_create.VerifC15Install(model.SelfMinerInfo{SecKey: in.sks[in.self], MinerInfo: model.MinerInfo{ID: in.ids[in.self]}}, storage, in.net)
-	in.party = logical.VerifC15NewParty(in.ids[in.self], in.chain, in.net, storage, "verif-c15-"+short(in.hash.Bytes()))
+	in.party = logical.VerifC15NewParty(in.ids[in.self], in.chain, in.net, storage, common.ToHex(in.partyKey.Bytes()))
 	if in.party == nil {
 		t.Fatalf("SignParty.Start failed")
 	}
@@ -328,6 +335,7 @@ func buildInstanceKeys(t failer, src source, n int, ownMissing, otherMissing int
 type spec struct {
 	sender   int // member index the sender controls, -1 = outsider
 	kind     string
+	filed    []byte // BlockHash field (routing key); nil = bh.Hash
 	idBytes  []byte
 	dataHash []byte
 	sig      []byte
@@ -363,10 +371,12 @@ var byzKinds = []string{
 	"replay_member", "replay_block_share", "garbage_sig", "garbage_sig", "foreign_point_sig", "group_sig_as_share",
 	"beacon_other_value", "beacon_replay", "beacon_garbage", "beacon_over_block_hash", "swapped_shares",
 	"claim_verifier_replay", "claim_verifier_foreign_points", "claim_verifier_other_key", "claim_verifier_own_shares_swapped",
+	"about_party_key", "about_party_key", "about_sibling_block", "about_previous_block", "about_random_hash",
 }
 
 var outsiderKinds = []string{"outsider_own_key", "outsider_replay", "zero_id", "oversize_id", "padded_member_id",
-	"claim_verifier_replay", "claim_verifier_foreign_points", "claim_verifier_other_key"}
+	"claim_verifier_replay", "claim_verifier_foreign_points", "claim_verifier_other_key",
+	"about_party_key", "about_sibling_block", "about_random_hash"}
 
 func garbage(src source, label string) []byte {
 	switch src.Int(label+"_g", 0, 4) {
@@ -439,6 +449,36 @@ func (in *instance) mkSpec(src source, kind string, b int, tag string) spec {
 		s.rnd = in.expBlock[b]
 	case "swapped_shares":
 		s.sig, s.rnd = in.expBeacon[b], in.expBlock[b]
+	// messages that are internally consistent but about ANOTHER hash X: BlockHash = data hash = X, the
+	// sender's real share over X (an outsider: its own key and id), valid beacon share
+	case "about_party_key", "about_sibling_block", "about_previous_block", "about_random_hash":
+		var x common.Hash
+		switch kind {
+		case "about_party_key": // the party's initial registration key
+			x = in.partyKey
+		case "about_sibling_block": // the block another castor proposed at the same height on the same parent
+			sib := *in.bh
+			sib.Castor = src.Bytes(tag+"_sibcastor", 32)
+			sib.Hash = common.Hash{}
+			x = sib.GenHash()
+		case "about_previous_block":
+			x = in.preBH.Hash
+		default:
+			x = otherHash
+		}
+		if x == in.hash {
+			x[0] ^= 1
+		}
+		sk := groupsig.Seckey{}
+		if b >= 0 {
+			sk = in.sks[b]
+		} else {
+			sk = *groupsig.NewSeckeyFromBigInt(new(big.Int).SetBytes(src.Bytes(tag+"_ok", 32)))
+			s.idBytes = groupsig.NewIDFromPubkey(*groupsig.GeneratePubkey(sk)).Serialize()
+			s.rnd = sign(sk, in.preBH.Random)
+		}
+		s.filed, s.dataHash = x.Bytes(), x.Bytes()
+		s.sig = sign(sk, x.Bytes())
 	// messages that name the VERIFIER itself as signer (the signer id is only a claimed field)
 	case "claim_verifier_replay": // another member's valid shares
 		j := in.otherMember(src, tag+"_j", in.self)
@@ -501,10 +541,14 @@ func (in *instance) realise(s *spec) (msg *model.ConsensusVerifyMessage, dropped
 		}
 		return b
 	}
+	filed := in.hash
+	if s.filed != nil {
+		filed = common.BytesToHash(s.filed)
+	}
 	if s.wire {
 		v := int32(common.ConsensusVersion)
 		pb := &middleware_pb.ConsensusVerifyMessage{
-			BlockHash:  in.hash.Bytes(),
+			BlockHash:  filed.Bytes(),
 			RandomSign: nz(s.rnd),
 			Sign:       &middleware_pb.SignData{DataHash: nz(s.dataHash), DataSign: nz(s.sig), SignMember: nz(s.idBytes), Version: &v},
 		}
@@ -534,7 +578,7 @@ func (in *instance) realise(s *spec) (msg *model.ConsensusVerifyMessage, dropped
 	var dh common.Hash
 	copy(dh[:], s.dataHash)
 	return &model.ConsensusVerifyMessage{
-		BlockHash:  in.hash,
+		BlockHash:  filed,
 		RandomSign: rnd,
 		Id:         s.msgID,
 		SignInfo:   model.MakeSignInfo(dh, sig, id, common.ConsensusVersion),
@@ -610,6 +654,22 @@ func genSchedule(in *instance, src source, t *rapid.T) schedule {
 	sc.msgs = arrived
 	if src.Int("early", 0, 2) == 0 && len(sc.msgs) > 0 {
 		sc.nEarly = src.Int("n_early", 1, len(sc.msgs))
+	}
+	// messages about another hash are what a faulty member can get to the party while it is still
+	// registered under its initial key: in half of the schedules that contain some, they come first and early
+	var about, rest []spec
+	for _, m := range sc.msgs {
+		if strings.HasPrefix(strings.TrimPrefix(m.kind, "dup:"), "about_") {
+			about = append(about, m)
+		} else {
+			rest = append(rest, m)
+		}
+	}
+	if len(about) > 0 && src.Int("about_first", 0, 1) == 0 {
+		sc.msgs = append(about, rest...)
+		if sc.nEarly < len(about) {
+			sc.nEarly = len(about)
+		}
 	}
 	// The oversize id makes groupsig.ID.Serialize panic inside round1.Update; baseParty.Update recovers
 	// it for a message delivered in round1. Early (future) verify messages cannot occur through
@@ -911,6 +971,24 @@ func TestShareCounting(t *testing.T) {
 			}
 			classes = append(classes, "forged_verifier_id_before_own_share:"+when+","+ks)
 		}
+		aboutSeen := map[string]bool{}
+		for i := range sc.msgs {
+			if k := strings.TrimPrefix(sc.msgs[i].kind, "dup:"); strings.HasPrefix(k, "about_") {
+				when := "late"
+				if i < sc.nEarly {
+					when = "early"
+				}
+				who := "member"
+				if sc.msgs[i].sender < 0 {
+					who = "outsider"
+				}
+				c := "consistent_other_hash:" + k + "," + when + "," + who
+				if !aboutSeen[c] {
+					aboutSeen[c] = true
+					classes = append(classes, c)
+				}
+			}
+		}
 		stats.Case(nt, classes...)
 		seen := map[string]bool{}
 		for _, k := range out.kindsBeforeThres {
@@ -1032,6 +1110,29 @@ func TestForgedVerifierIdExample(t *testing.T) {
 			if out.fail != "" || !out.finalised {
 				t.Fatalf("C15 violated: %s early=%d verifier=member %d without its own share key registered: finalised=%v\nschedule: %v\n%s",
 					kind, early, in.self, out.finalised, render(in, sc), out.fail)
+			}
+		}
+	}
+}
+
+// TestConsistentOtherHashExample: a member sends a message that is consistently about another hash X
+// (BlockHash = data hash = X, its real share over X, valid beacon share), X = the party's initial key /
+// a sibling block / the previous block, while the party is in round0 or afterwards; then every member's
+// honest message. The foreign share must not be counted and the block must finalise.
+func TestConsistentOtherHashExample(t *testing.T) {
+	for _, kind := range []string{"about_party_key", "about_sibling_block", "about_previous_block", "about_random_hash"} {
+		for early := 0; early <= 1; early++ {
+			src := &fixedSrc{ctr: 4242}
+			in := buildInstanceKeys(t, src, 5, 0, 0)
+			var sc schedule
+			sc.msgs = append(sc.msgs, in.mkSpec(src, kind, 0, "foreign"))
+			sc.nEarly = early
+			for i := 0; i < in.n; i++ {
+				sc.msgs = append(sc.msgs, in.mkSpec(src, "honest", i, fmt.Sprintf("h%d", i)))
+			}
+			out := run(in, sc)
+			if out.fail != "" || !out.finalised {
+				t.Fatalf("C15 violated: %s early=%d: finalised=%v\nschedule: %v\n%s", kind, early, out.finalised, render(in, sc), out.fail)
 			}
 		}
 	}
